@@ -56,6 +56,16 @@ def register(op):
         os.write(fd, data)
         os.close(fd)
         del _events[:]
+        import resource
+        try:
+            # huge allocations fail with MemoryError instead of taking the machine down
+            soft, hard = resource.getrlimit(resource.RLIMIT_AS)
+            cap = 6 << 30
+            if soft == resource.RLIM_INFINITY or soft > cap:
+                resource.setrlimit(resource.RLIMIT_AS, (cap, hard))
+        except (ValueError, OSError):
+            pass
+        rss0 = resource.getrusage(resource.RUSAGE_SELF).ru_maxrss
         t0 = time.time()
         _armed[0] = True
         try:
@@ -81,4 +91,6 @@ def register(op):
                 os.unlink(path)
             except OSError:
                 pass
-        return {"outcome": out, "wall": round(time.time() - t0, 3), "events": list(_events)[:5]}
+        rss1 = resource.getrusage(resource.RUSAGE_SELF).ru_maxrss
+        return {"outcome": out, "wall": round(time.time() - t0, 3), "events": list(_events)[:5],
+                "rss_growth_mb": round((rss1 - rss0) / 1024.0, 1)}
